@@ -4,13 +4,10 @@
     (tools/props/c14.py).  Oracles (shapely [disjoint], CRS conversion of a
     query polygon and its bounding box) are function parameters. *)
 From Coq Require Import ZArith QArith Qround Qabs List Bool.
-From OG Require Import Base.Result.
+From OG Require Import Base.Result Base.QMinMax.
 Import ListNotations.
 Open Scope Q_scope.
 
-Definition Qlt_bool (x y : Q) : bool := negb (Qle_bool y x).
-Definition qmin (x y : Q) : Q := if Qle_bool x y then x else y.
-Definition qmax (x y : Q) : Q := if Qle_bool x y then y else x.
 
 (** * Bin1D *)
 Record bin1d := mkBin { b_sz : Q; b_origin : Q; b_dir : Z }.
@@ -80,8 +77,6 @@ Definition tile_geobox (g : gridspec) (idx : Z * Z) : gbox :=
 
 (** GeoBox.boundingbox = BoundingBox.from_transform(shape, affine): the four
     corners (0,0) (nx,0) (nx,ny) (0,ny) through the affine, then min/max. *)
-Definition min4 (a b c d : Q) : Q := qmin (qmin (qmin a b) c) d.
-Definition max4 (a b c d : Q) : Q := qmax (qmax (qmax a b) c) d.
 
 Definition gbox_bbox (b : gbox) : Q * Q * Q * Q :=
   let px (x : Z) := gb_sx b * inject_Z x + gb_tx b in
